@@ -1,6 +1,10 @@
+import os, sys
+sys.path.insert(0, os.path.dirname(os.path.dirname(os.path.abspath(__file__))))
+from purefns import pure_fns
+
 PROP = dict(
     props="Props/C09.v",
-    tie={"modules": ["GoSem", "Abi", "VmReceive", "Emb", "TieC09"],
+    tie={"modules": ["GoSem", "Abi", "VmReceive", "Emb", "TieC09", "TiePure"],
          "fns": {"abi_unpack_method": ("abi_unpack_method_run", "abi_out_eqb", "(bytes * list ty * bytes) * abi_out"),
                  "abi_unpack_empty": ("abi_unpack_empty_run", "Z.eqb", "(bytes * bytes) * Z"),
                  "vm_receive": ("vm_receive_run", "vm_receive_eqb", "(bytes * Z * bytes * bool * list (bytes * Z * bytes)) * (Z * list (bytes * Z * bytes))"),
@@ -10,11 +14,16 @@ PROP = dict(
                  "emb_stake": ("emb_stake_run", "emb_stake_eqb", "emb_in sstore * emb_out sstore"),
                  "emb_htlc": ("emb_htlc_run", "emb_htlc_eqb", "emb_in hstore * emb_out hstore"),
                  "emb_token": ("emb_token_run", "emb_token_eqb", "emb_in tstore * emb_out tstore"),
-                 "emb_common": ("emb_common_run", "emb_common_eqb", "emb_in cstore * emb_out cstore")}},
+                 "emb_common": ("emb_common_run", "emb_common_eqb", "emb_in cstore * emb_out cstore"),
+                 **pure_fns("NetworkZnnRewardPerEpoch", "NetworkQsrRewardPerEpoch", "PillarRewardPerMomentum",
+                            "SentinelRewardForEpoch", "LiquidityRewardForEpoch", "StakeQsrRewardPerEpoch")}},
     suites=[{"bin": "c09", "name": "abi", "n": {"quick": 1500, "thorough": 30000}},
             {"bin": "c09", "name": "calls", "n": {"quick": 44, "thorough": 1500}, "timeout": 3000},
             {"bin": "c09", "name": "removed", "n": {"quick": 10, "thorough": 100}},
-            {"bin": "c09", "name": "wedge", "n": {"quick": 1, "thorough": 10}}],
+            {"bin": "c09", "name": "wedge", "n": {"quick": 1, "thorough": 10}},
+            # the emission functions run inside every reward contract's Update receive at every chain age: all epochs up
+            # to past the end of the schedules, oracle emission-function-does-not-panic
+            {"bin": "pure", "name": "pure", "n": {"quick": 500, "thorough": 5000}, "args": ["rewards"]}],
     rule="abi: every method of every embedded ABI, canonical encodings of boundary values mutated by truncation, bad selector, hostile offset/length words (0, len+-k, 2^31, 2^32, 2^63+-k, 2^64-k, 2^255, 2^256-k), non-canonical padding, aliased offsets, dropped/inserted words, trailing and random bytes, through the real UnpackMethod/UnpackEmptyMethod under recover; "
          "calls: histories on a real node under each spork regime (origin, accelerator, bridge+liquidity, htlc), every (contract, method) pair of the ABIs, arguments from pools (known entry ids, owners, issued tokens, names, preimages) and boundary classes, amounts {natural, 0, 1, 2^255-1, whole balance,...} x tokens {ZNN, QSR, issued, foreign, zero}, 1/6 of the calls with mutated ABI encodings; every accepted send is received through vm.Supervisor.GenerateAutoReceive under the harness's recover; every second history of a regime is focused: two user-issued tokens received by their issuers, and (bridge / htlc regimes) the bridge set up by accepted administrator calls (orchestrator, guardians, TSS key, network, an owned and a not-owned token pair with fees from {0, 1, MaximumFee-1, MaximumFee}) and liquidity guardians; half of its steps are deep operations: Token.Mint with every embedded contract as receive address (token -> X.Donate), token owner moved to contracts, donations / burns / liquidity stakes of user-issued tokens, SetTokenPair with boundary fees and minimum amounts, WrapToken at {min-1, min, min+1, 1, whole balance}, UnwrapToken signed by the TSS key towards users and contracts, Redeem, UpdateWrapRequest with the real signature, ChangeTssECDSAPubKey by anybody; every pubkey-typed argument is drawn from a pool of invalid secp256k1 encodings (33 bytes not on the curve, wrong prefix, x >= p, 32/34/64/65 bytes, not base64); the refund of a failed call is compared with the send block as snapshotted before the receive ran and as re-read from the ledger by hash; a failing receive of a call sent by a contract is keyed contract-call-wedges-inbox:<sender>-><receiver>.<method> (only bridge->token.Burn of a token that is neither burnable nor bridge-owned is the known finding); "
          "removed: a valid call whose method is retired (verif hook) between send and receive, and inclusion of the four real method tables; wedge: the bridge set up through accepted administrator calls with an owned, non-burnable token pair, then a user WrapToken (reproducer of the known finding); a case is distinct by (function, input)",
